@@ -303,7 +303,12 @@ Proof.
   induction data as [|t data IH]; intros H; simpl; [reflexivity|].
   rewrite chi2_guard_spec by (apply H; left; reflexivity).
   rewrite IH by (intros; apply H; right; assumption).
-  destruct (negb (Qle_bool (FQ.dye t) 0)); simpl; [reflexivity|ring].
+  destruct (Qle_bool (FQ.dye t) 0) eqn:E; simpl; [ring|].
+  assert (Hne : ~ FQ.dye t == 0).
+  { intros Hz. assert (Hle : FQ.dye t <= 0) by (rewrite Hz; apply Qle_refl).
+    apply Qle_bool_iff in Hle. congruence. }
+  apply Qplus_comp; [|reflexivity].
+  unfold FitGlueQ.chi2_term. simpl. field. exact Hne.
 Qed.
 
 (* ------------------------------------------------------------------ registration loop *)
@@ -371,6 +376,12 @@ Proof.
   - rewrite IH. ring.
 Qed.
 
+Lemma fold_left_extQ : forall (f g : Q -> Q -> Q) l a a',
+  (forall u u' v, u == u' -> f u v == g u' v) -> a == a' -> fold_left f l a == fold_left g l a'.
+Proof.
+  induction l as [|b l IH]; intros a a' H Ha; simpl; [assumption|]. apply IH; [assumption|]. apply H. assumption.
+Qed.
+
 Lemma model_fn_Q_peval : forall x,
   (forall a b, FQ.model_fn FQ.MLin [a; b] x == FQ.peval [a; b] x) /\
   (forall a b c, FQ.model_fn FQ.MQuad [a; b; c] x == FQ.peval [a; b; c] x) /\
@@ -380,7 +391,9 @@ Proof.
   - unfold FQ.model_fn, FitQ.fit_lin. simpl. ring.
   - unfold FQ.model_fn, FitQ.fit_quad. simpl. ring.
   - unfold FQ.model_fn, FitQ.fit_poly, fold_left1. destruct cs as [|c cs]; simpl; [reflexivity|].
-    rewrite hornerQ_fold. reflexivity.
+    transitivity (fold_left (fun a b => a * x + b) cs c).
+    + apply fold_left_extQ; [|reflexivity]. intros u u' v Hu. rewrite Hu. ring.
+    + apply hornerQ_fold.
 Qed.
 
 (** ... and their real-valued reading *)
